@@ -129,9 +129,12 @@ def run(rep, tier, only=None):
     rep.validated += backend_selftest(P, nat, limit=None if tier == "thorough" else 10, configs=False)
     sd = seed()
     ws = words(2 if tier == "quick" else 3)
+    extra = ["qqq", "xqq", "qqx", "sfx", "xsf", "fsx", "xbq", "bbq", "xxb", "bqqq", "bbqqq", "xbqqq", "bqqqx", "bbbqqq", "bsf", "bn", "xbnx"]
     if tier == "quick":
         alpha = "nsfqabhtwx"
-        ws += [a + "n" + b for a in alpha for b in alpha] + ["qqq", "xqq", "qqx", "sfx", "xsf", "fsx", "xbq", "bbq", "xxb"]
+        ws += [a + "n" + b for a in alpha for b in alpha] + extra
+    else:
+        ws += [w for w in extra if w not in ws]
     cases = []
     for lang in LANGS:
         for pi, pos in enumerate(POSITIONS):
